@@ -5,3 +5,12 @@ import "os"
 type osFile = os.File
 
 var stderrFile = os.Stderr
+
+// repoDir is the repository under check: /repo for every registered command; VERIF_REPO lets a background
+// exploration run against a snapshot.
+func repoDir() string {
+	if d := os.Getenv("VERIF_REPO"); d != "" {
+		return d
+	}
+	return "/repo"
+}
